@@ -181,6 +181,14 @@ func checkC11(c *Ctx) {
 		nprog++
 		compileBoth(c, p.Scripts[0].Name, p, src, base, &cases, &rejected)
 	}
+	// AutoVar commands that take inline text (yes/no boxes ...) as conditions, alone and as first /
+	// middle / last operand of && and || chains: "the same rendering it would have as a statement"
+	nf := 80
+	if !c.Quick() {
+		nf = 2500
+	}
+	fileRefineCases(c, r, nf, FileCfg{MaxTops: 2, Inline: true, AutoInline: true, Kinds: []string{"script", "script", "text"},
+		Ctl: GenCfg{MaxDepth: 2, MaxStmts: 3, MaxLeaves: 4, Switches: true}}, "ad", &cases, &rejected)
 	st := RunRefine(c, cases, 6000, "AutoVar command not run exactly once, in order, before comparing its var", nil)
 
 	// Binding of the CLI path: the real binary, given the same config through its
